@@ -348,6 +348,23 @@ func c04Check(cc CfgCase, rec *Recorder) *Disc {
 	} else if (err2 == nil) != (err == nil) {
 		return discf("NewMiddleware and Reconfigure disagree on %+v: %v vs %v", c, err, err2)
 	}
+	// entry point 4: the get-modify-set workflow. Relax c (all switches off,
+	// integers default) until it is valid, take that middleware's own Config()
+	// and switch c's settings back on: Reconfigure must still notice what
+	// NewMiddleware notices, whatever the middleware's current state is.
+	relaxed := c
+	relaxed.Credentialed, relaxed.PNA, relaxed.PNANoCORS, relaxed.MaxAge, relaxed.Status = false, false, false, 0, 0
+	if mr, errR := cors.NewMiddleware(relaxed.Cors()); errR == nil {
+		edited := CfgFromCors(mr.Config())
+		edited.Credentialed, edited.PNA, edited.PNANoCORS, edited.MaxAge, edited.Status = c.Credentialed, c.PNA, c.PNANoCORS, c.MaxAge, c.Status
+		if bad4 := definiteViolations(edited); len(bad4) > 0 {
+			rec.Class("get-modify-set-invalid")
+			e := edited.Cors()
+			if err4 := mr.Reconfigure(&e); err4 == nil {
+				return discf("Reconfigure accepted %+v on a middleware currently configured with %+v although: %v", edited, relaxed, bad4)
+			}
+		}
+	}
 	// entry point 3: Reconfigure on a configured middleware
 	base, _ := cors.NewMiddleware(cors.Config{Origins: []string{"https://example.com"}})
 	cfg3 := c.Cors()
@@ -360,7 +377,7 @@ func c04Check(cc CfgCase, rec *Recorder) *Disc {
 func TestC04(t *testing.T) {
 	Prop[CfgCase]{ID: "C04", Gen: c04Gen, Check: c04Check,
 		Rule: "generator: as C05 (labelled atoms, all switch combinations, integers around every bound) plus byte junk inserted at any position of any list (random bytes, one-byte mutations/insertions/deletions of valid patterns, scheme/separator/port recombinations) and full-range integers; " +
-			"fed to NewMiddleware, Reconfigure on a passthrough and Reconfigure on a configured middleware. Oracle (soundness only): nil error => no labelled violation and no syntactically evident defect; non-nil error => nil *Middleware. " +
+			"fed to NewMiddleware, Reconfigure on a passthrough, Reconfigure on an unrelated configured middleware, and Reconfigure on a middleware configured with the relaxed variant of the same configuration (get-modify-set on its own Config()). Oracle (soundness only): nil error => no labelled violation and no syntactically evident defect; non-nil error => nil *Middleware. " +
 			"non-trivial = configuration that contains at least one definite violation (an acceptance would be wrong); distinct by configuration.",
 		Assumptions: []string{"junk strings are judged only when a documented defect is syntactically evident; all other junk is grey and not judged (completeness is C05's business)"}}.Run(t)
 }
